@@ -500,7 +500,7 @@ class WSStream:
     async def _send_rejection(self, message: WebsocketResponseBodyEvent) -> None:
         body_suppressed = suppress_body("GET", self.response["status"])
         if self.state == ASGIWebsocketState.HANDSHAKE:
-            headers = build_and_validate_headers(self.response["headers"])
+            headers = build_and_validate_headers(self.response.get("headers", []))
             await self.send(
                 Response(
                     stream_id=self.stream_id,
